@@ -32,6 +32,12 @@ void UncompressedFile::read(char * s, std::streamsize n) {
     /* mutex lock */
     std::unique_lock<std::mutex> lock(m_mutex);
 
+    /* like std::istream: a failed stream stays failed and delivers nothing */
+    if (m_rdstate & (std::ios_base::failbit | std::ios_base::badbit)) {
+        m_gcount = 0;
+        return;
+    }
+
     /* wait until there is sufficient data */
     tellpChanged.wait(lock, [&] {
         return
